@@ -1056,7 +1056,13 @@ class FnTranslator:
             target = self.registry[self.spec.wrapper_of]
             argcodes = [vname(p) for p, _ in target.params]
             return self.emit_call(target, argcodes)
+        # --- static methods of the same class called through the class name: Cls.m(...) is self.m(...)
+        if self.spec.cls and getattr(self.spec, 'py_cls', None) and fname.startswith(self.spec.py_cls + '.'):
+            fname = 'self.' + fname[len(self.spec.py_cls) + 1:]
         # --- methods of the same class: self.m(...)
+        if fname.startswith('self.__') and self.spec.cls and (self.spec.cls + '_priv_' + fname[5:].lstrip('_')) in self.registry:
+            target = self.registry[self.spec.cls + '_priv_' + fname[5:].lstrip('_')]
+            return self.call_translated(target, node, env)
         if fname.startswith('self.__') and self.spec.cls and (self.spec.cls + '_' + fname[5:].lstrip('_')) in self.registry:
             target = self.registry[self.spec.cls + '_' + fname[5:].lstrip('_')]
             return self.call_translated(target, node, env)
@@ -1549,6 +1555,32 @@ class FnTranslator:
                 return 'int' in kinds
             if e.ty == Q:
                 return 'float' in kinds
+            if isinstance(e.ty, tuple) and e.ty and e.ty[0] in ('tuple', 'list'):
+                return False            # a tuple / list value is neither an int nor a float
+            return None
+        # `x is None` / `x is not None` on a value whose declared type is not optional
+        if isinstance(node, ast.Compare) and len(node.ops) == 1 and isinstance(node.ops[0], (ast.Is, ast.IsNot)) \
+                and isinstance(node.comparators[0], ast.Constant) and node.comparators[0].value is None \
+                and isinstance(node.left, ast.Attribute) and isinstance(node.left.value, ast.Name) and node.left.value.id == 'self':
+            try:
+                e = self.expr(node.left, env)
+            except TransError:
+                return None
+            if e.ty in (Z, Q, B, S) or (isinstance(e.ty, tuple) and e.ty and e.ty[0] in ('tuple', 'list')):
+                return isinstance(node.ops[0], ast.IsNot)
+            return None
+        # len(x) == k on a tuple of declared arity
+        if isinstance(node, ast.Compare) and len(node.ops) == 1 and isinstance(node.ops[0], (ast.Eq, ast.NotEq)) \
+                and isinstance(node.left, ast.Call) and isinstance(node.left.func, ast.Name) and node.left.func.id == 'len' \
+                and len(node.left.args) == 1 and isinstance(node.comparators[0], ast.Constant) \
+                and isinstance(node.comparators[0].value, int):
+            try:
+                e = self.expr(node.left.args[0], env)
+            except TransError:
+                return None
+            if isinstance(e.ty, tuple) and e.ty and e.ty[0] == 'tuple':
+                eq = len(e.ty[1]) == node.comparators[0].value
+                return eq if isinstance(node.ops[0], ast.Eq) else (not eq)
             return None
         if isinstance(node, ast.Call) and isinstance(node.func, ast.Name) and node.func.id in ('all', 'any') \
                 and len(node.args) == 1 and isinstance(node.args[0], (ast.List, ast.Tuple)):
@@ -2076,11 +2108,14 @@ def class_method_specs(m, tree, cspec, errors):
             errors.append({'function': name + '.' + meth, 'file': m['file'], 'error': 'sampler not found'})
             continue
         cn = cspec.get('coq_prefix', name) + '_' + meth.lstrip('_')
+        if meth.startswith('__') and meth[1:] in cspec.get('samplers', {}):
+            cn = cspec.get('coq_prefix', name) + '_priv_' + meth.lstrip('_')     # __m next to _m in one class
         sp = FnSpec(meth, [(pn, pt) for pn, pt in mparams], cls=cspec.get('coq_prefix', name), self_attrs=self_attrs,
                     coq_name=cn)
         sp.node = fn
         sp.decos = []
         sp.sampler = True
+        sp.py_cls = name
         sp.cls_nodes = nodes
         sp.has_kwargs = fn.args.kwarg is not None
         sp.kwrest = None
